@@ -69,6 +69,7 @@ def run_ext(ctx):
             k += ":accepted" if e["acc"] else ":rejected(%s)" % (e["err"] or "nil")
         kinds[k] = kinds.get(k, 0) + 1
     ctx.extra["extpool_event_kinds"] = kinds
+    ctx.extra.update(established(events))
     reported = set()
     for f in fails:
         li = f["line"] - 1
@@ -90,6 +91,42 @@ def run_ext(ctx):
     # 5. binding self-test: corrupted copies of a good trace must be rejected
     if not fails:
         selftest(ctx, events)
+
+
+def established(events):
+    """What the code does where the statement is silent (information, never a verdict): how often an accepted payload
+    displaced one that was still valid at that height, how often RemoveStale dropped a still-valid one, how often a
+    payload that had left the pool was accepted again on re-delivery."""
+    st = {"extpool_evicted_while_valid": 0, "extpool_evicted_stale": 0, "extpool_stale_dropped_valid": 0,
+          "extpool_readmitted_after_drop": 0, "extpool_max_per_sender": 0}
+    tab, allowed, known, ever = {}, set(), set(), set()
+    for e in events:
+        if e["event"] == "init":
+            tab, allowed, known, ever = {p["id"]: p for p in e["payloads"]}, set(e["allowed"]), set(), set()
+            continue
+        if e["event"] == "get":
+            continue
+        now = set(e["known"])
+        gone = known - now
+
+        def valid(hid):
+            p = tab[hid]
+            return p["sender"] in allowed and p["start"] <= e["h"] < p["end"]
+        if e["event"] == "add" and e["acc"]:
+            hid = tab[e["p"]]["hid"]
+            if hid in ever:
+                st["extpool_readmitted_after_drop"] += 1
+            for g in gone:
+                st["extpool_evicted_while_valid" if valid(g) else "extpool_evicted_stale"] += 1
+        elif e["event"] == "stale":
+            st["extpool_stale_dropped_valid"] += sum(1 for g in gone if valid(g))
+        per = {}
+        for x in now:
+            per[tab[x]["sender"]] = per.get(tab[x]["sender"], 0) + 1
+        st["extpool_max_per_sender"] = max([st["extpool_max_per_sender"]] + list(per.values()))
+        known = now
+        ever |= now
+    return st
 
 
 def selftest(ctx, events):
